@@ -55,6 +55,8 @@ MUTANTS = [
     {"name": "revert-a3b6a28-const-enum-typeless", "revert": "a3b6a28", "props": ["C15"]},
     {"name": "c15-maximum-mapped-to-lt", "props": ["C15"], "edits": [{"file": "utype/specs/json_schema/constant.py", "old": "    'maximum': 'le',", "new": "    'maximum': 'ge',"}]},
     {"name": "c15-uniqueItems-dropped", "props": ["C15"], "edits": [{"file": "utype/specs/json_schema/constant.py", "old": "    'uniqueItems': 'unique_items',\n", "new": ""}]},
+    {"name": "revert-4907b11-async-generator-asend", "revert": "4907b11", "props": ["C08"]},
+    {"name": "revert-b8c7212-private-positional-default", "revert": "b8c7212", "props": ["C08"]},
     # ---- C01 ------------------------------------------------------------------------------
     {"name": "c01-seq-first-element-unconverted", "props": ["C01"], "edits": [{"file": R, "old": """                try:
                     result.append(
